@@ -325,7 +325,22 @@ impl Monitor for Mon07 {
             self.why = "";
             let mut why = "";
             let mut ok = true;
-            ok &= pass(*limit == 0, "limit_nonzero", out, &mut why);
+            // no limit, or a limit every execution satisfies (a long's whole value is at least four times it / a short's at most
+            // a quarter of it, measured on the vAMM's own quote for the whole position)
+            let permissive = match pr.n_spot {
+                Some(q) if *limit != 0 => {
+                    if pr.long {
+                        *limit <= q / 4
+                    } else {
+                        *limit / 4 >= q
+                    }
+                }
+                _ => false,
+            };
+            if permissive {
+                out.count("qualifying.permissive_nonzero_limit");
+            }
+            ok &= pass(*limit == 0 || permissive, "limit_nonzero", out, &mut why);
             // below maintenance by the vAMM's own answers, or by the 15-minute TWAP recomputed from the harness's record of
             // block-final reserves (whatever the one unit of slack)
             let below_by_record = ratio_by_harness_twap(w, pre, *v, pr).map(|(_, hi)| hi.lt(&maint)).unwrap_or(false);
